@@ -79,6 +79,7 @@ fn alphabet(u: &Uni, external: bool) -> Vec<Op> {
         ops.push(Op::Base(Op15::SetAzks(e)));
     }
     ops.push(Op::Rejected(Op15::SetAzks(u.max_epoch)));
+    ops.push(Op::Base(Op15::BatchAzksFirst(u.max_epoch)));
     for i in 0..u.n_nodes {
         for c in 1..=u.max_epoch {
             ops.push(Op::Base(Op15::SetNode(i, c)));
